@@ -299,13 +299,16 @@ def streamCheck (evs : List Ev) (trunc : Bool := false) : Bool :=
   | e :: rest => !trunc && checkLoop e.clock rest false
 
 /-- `stream_step` as the emulator runs it (`unsorted == 0`, clock offset 0):
-    `clock < lastclock` on the int64 values rejects the stream; `lastclock`
-    starts at 0. -/
+    `clock < lastclock` on the int64 values rejects the stream; the first
+    event has no previous clock. -/
 def stepsMonotone : Int → List Ev → Bool
   | _, [] => true
   | last, e :: l => if skey e.clock < last then false else stepsMonotone (skey e.clock) l
 
-def emuStreamAccepts (evs : List Ev) : Bool := stepsMonotone 0 evs
+def emuStreamAccepts (evs : List Ev) : Bool :=
+  match evs with
+  | [] => true
+  | e :: l => stepsMonotone (skey e.clock) l
 
 /-! ### A concrete `sortFn`: insertion sort with the comparator of `cmp_ev` -/
 
